@@ -805,8 +805,8 @@ func ruleHonestStep(w *World, r *Run, a *updAnalysis, rule string, only ...strin
 	izero := mk("const", "0", 0, types.Typ[types.Int])
 	plen := mk("len", "", 0, types.Typ[types.Int], a.pProof)
 	type class struct {
-		name           string
-		pZero, equal   bool
+		name         string
+		pZero, equal bool
 	}
 	classes := []class{{"0=stored=submitted", true, true}, {"0=stored<submitted", true, false}, {"0<stored=submitted", false, true}, {"0<stored<submitted", false, false}}
 	for _, c := range classes {
@@ -992,12 +992,12 @@ func ruleTouchByComparison(w *World, r *Run, a *updAnalysis, rule string) {
 }
 
 type cell struct {
-	known, sig  bool
-	stored      string // notfound | found
-	rk          []int  // ranks of 0, old, p, n
-	rootEq      bool
-	proofOK     bool
-	proofEmpty  bool
+	known, sig bool
+	stored     string // notfound | found
+	rk         []int  // ranks of 0, old, p, n
+	rootEq     bool
+	proofOK    bool
+	proofEmpty bool
 }
 
 func rankDesc(rk []int, names []string) string {
@@ -1583,7 +1583,6 @@ func ruleCounterLabel(w *World, r *Run, a *updAnalysis, rule string) {
 		}
 	}
 }
-
 
 // observationOnly: the event cannot change or reveal witness state: deferrals, reads, calls into the logging, clock,
 // formatting and string packages of the standard library and klog, and calls of an operator-supplied callback held in the
